@@ -4,14 +4,15 @@ from ..common import d42  # noqa: F401
 from d42 import optional
 from d42.utils import rollout
 
-MODULE = "D42.Props.C18"
+MODULE = "D42.Props.C18Perm"
 THEOREMS = ["rollout_flatten", "rollout_id", "rollout_flatten_ell", "sepSafe_of_single_char", "sepSafe_counterexample",
-            "splitFirst_some", "splitFirst_none_iff", "rolloutF_flatten", "rolloutF_id"]
-FILES = ["D42/Model/Rollout.lean", "D42/Props/C18.lean"]
+            "splitFirst_some", "splitFirst_none_iff", "rolloutF_flatten", "rolloutF_id",
+            "rollout_flatten_perm", "rollout_flatten_perm_ell", "REquiv_refl", "REquiv_symm", "rollout_perm_example"]
+FILES = ["D42/Model/Rollout.lean", "D42/Props/C18.lean", "D42/Props/C18Perm.lean"]
 
 EVIDENCE = dict(
     level="proof",
-    checker_cmd="lake build D42.Props.C18 d42model && lake env lean <#print axioms audit>",
+    checker_cmd="lake build D42.Props.C18Perm d42model && lake env lean <#print axioms audit>",
     trusted=["Lean kernel; standard axioms", "rollout model tied to the code by comparing the produced mapping (incl. key order) on this run"],
     rule="nested mappings depth<=4, any fan-out, leaf payloads of many kinds, optional at leaves, optional top-level `...: ...`, "
          "separators '.', '/', '->', '__', '::', 'aa' with SepSafe keys, flat keys shuffled; non-trivial = depth >= 2")
@@ -192,11 +193,15 @@ def replay(path):
 
 MANIFEST = dict(
     category="proof",
-    technique="Lean 4 theorems about the rollout model (split at the first separator, first-seen grouping) + mapping correspondence "
-              "+ flatten/rollout round-trip search with shuffled keys",
-    text="Props/C18.lean states (as proved; see evidence) that rollout of a separator-free mapping is the identity, that a "
-         "single-character separator absent from the keys is SepSafe, and the round-trip for flattened trees; tie: the mapping "
-         "produced by model and code (incl. insertion order) compared on shuffled flattenings for six separators; search: "
-         "rollout(flatten(m)) == m and identity on the real code.",
+    technique="Lean 4 theorems rollout_flatten / rollout_flatten_perm (any order of the flat keys) / rollout_id about the "
+              "rollout model + mapping correspondence + round-trip search with shuffled keys",
+    text="Props/C18.lean: rollout of the depth-first flattening of any well-formed nested mapping gives the mapping back, "
+         "optional markers on the same leaves, with or without a top-level ...: ... entry (rollout_flatten, "
+         "rollout_flatten_ell; fuel shown sufficient), rollout of a separator-free mapping is the identity (rollout_id), a "
+         "single-character separator absent from the keys is SepSafe. Props/C18Perm.lean: for EVERY ordering of the flat "
+         "keys rollout succeeds and returns a mapping equal as a mapping at every level (rollout_flatten_perm, _perm_ell; "
+         "REquiv is reflexive and symmetric on mappings with distinct keys). Tie: the mapping produced by model and code "
+         "(incl. insertion order) compared on shuffled flattenings for six separators; search: rollout(flatten(m)) == m "
+         "and identity on the real code.",
     note="Partial: SepSafe (K9: with a multi-character separator keys can overlap the boundary, 'x:::y' / '::' — flattening is not "
          "injective there). Trusted: Lean kernel + standard axioms, hand model (sampling tie), codec.")
